@@ -325,9 +325,12 @@ def encode(progs, enter, exit_, timeout_ms, witness=False):
     bad.append(("counter not zero after all calls returned",
                 z3.And(alldone, z3.Or(*[z3.And(l, wv != 0) for l, wv in final("_active_z3_calls")]))))
     if witness:
-        s.add(alldone)
+        if witness != "prefix":
+            s.add(alldone)
     else:
         s.add(z3.Or(*[b for _, b in bad]))
+    s.c19_finals = {"gc": final("gc"), "counter": final("_active_z3_calls")}
+    s.c19_alldone = alldone
     return s, events, bad, gc0
 
 
@@ -346,6 +349,67 @@ def extract_schedule(model, events, bad, gc0):
         sched.append({"thread": i, "kind": kind, "line": line, "fn": ins[-1]})
     which = [lbl for lbl, b in bad if z3.is_true(model.eval(b, model_completion=True))]
     return sched, which, bool(z3.is_true(model.eval(gc0, model_completion=True)))
+
+
+def model_final(model, s):
+    """final GC state / counter of a model in which every thread ran to completion (else None)"""
+    if not z3.is_true(model.eval(s.c19_alldone, model_completion=True)):
+        return None
+    out = {}
+    for v, terms in s.c19_finals.items():
+        for last, wv in terms:
+            if z3.is_true(model.eval(last, model_completion=True)):
+                val = model.eval(wv, model_completion=True)
+                out[v] = bool(z3.is_true(val)) if z3.is_bool(val) else val.as_long()
+                break
+    return out
+
+
+def witness_traces(oid, words, enter, exit_, timeout_ms, mutant=None, n=3):
+    """Translator validation: schedules chosen by Z3 from the *model* (no safety predicate asserted) that the real
+    functions must follow line for line, ending in the model's final state.  Trace j: j=0 initial GC enabled, all
+    threads complete; j=1 initial GC disabled, all complete; j>=2 a seed-dependent partial order over events of
+    different threads and seed-dependent prefixes (dropped if Z3 says that order is infeasible)."""
+    import random
+
+    seed = int(__import__("os").environ.get("VERIF_SEED", "0"))
+    out = []
+    for j in range(n):
+        s, events, bad, gc0 = encode(words, enter, exit_, timeout_ms, witness=("prefix" if j >= 2 else True))
+        rnd = random.Random(f"{seed}:{oid}:{j}")
+        if j == 0:
+            s.add(gc0)
+        elif j == 1:
+            s.add(z3.Not(gc0))
+        else:
+            by_thread = {}
+            for i, k, ins, ex, c in events:
+                by_thread.setdefault(i, []).append((ex, c))
+            ths = sorted(by_thread)
+            wishes = [gc0 == (rnd.random() < 0.5)]
+            for i in ths:  # a seed-chosen event of every thread is executed
+                wishes.append(rnd.choice(by_thread[i])[0])
+            if len(ths) > 1:
+                for _ in range(4):
+                    a, b = rnd.sample(ths, 2)
+                    (exa, ca), (exb, cb) = rnd.choice(by_thread[a]), rnd.choice(by_thread[b])
+                    wishes.append(z3.And(exa, exb, ca < cb))
+            for w in wishes:  # each wish is kept only if Z3 finds it feasible together with the earlier ones
+                s.push()
+                s.add(w)
+                if str(s.check()) != "sat":
+                    s.pop()
+        if str(s.check()) != "sat":
+            continue
+        m = s.model()
+        sched, which, g0 = extract_schedule(m, events, bad, gc0)
+        case = {"harness": "harness.p_c19", "prop": "C19", "words": words, "schedule": sched, "gc0": g0,
+                "which": which, "obligation": oid, "mode": "conformance", "expect_final": model_final(m, s),
+                "trace": j}
+        if mutant:
+            case["mutant"] = mutant
+        out.append(case)
+    return out
 
 
 # ---------------------------------------------------------------------------------------------------------
@@ -429,10 +493,20 @@ def run_obligation(oid, params, tier):
             return res
         if str(r) == "sat":
             res["status"] = "twin_ok"
+            sched, which, g0 = extract_schedule(s.model(), events, bad, gc0)
+            case = {"harness": "harness.p_c19", "prop": "C19", "words": params["words"], "schedule": sched, "gc0": g0,
+                    "which": which, "obligation": oid}
+            if twin == "witness":
+                case.update(mode="conformance", expect_final=model_final(s.model(), s))
+            else:  # the counterexample of the mutated source must reproduce on the mutated functions
+                case.update(mode="mutant-cex", mutant={"enter": src["enter"], "exit": src["exit"]})
+            res["validate"] = [case]
         else:
             res["status"] = "twin_failed"
             res["detail"] = f"vacuity twin {twin} returned {r}: the encoding cannot reach a violation it must reach"
         return res
+    if str(r) == "unsat":
+        res["validate"] = witness_traces(oid, params["words"], enter, exit_, timeout_ms)
     if str(r) == "unknown":
         res["status"] = "inconclusive"
         res["inconclusive"] = [f"solver unknown after {dt:.0f}s ({s.reason_unknown()})"]
@@ -539,6 +613,10 @@ def replay(case):
     lock = _Lock(sched)
     mlog = _Log()
     saved = (bz3._gc_lock, bz3.gc, bz3.log, bz3._active_z3_calls, bz3._gc_was_enabled)
+    saved_fns = (bz3._enter_z3, bz3._exit_z3)
+    if case.get("mutant"):  # vacuity twins: the mutated source is compiled into the real module's namespace
+        for key, name in (("enter", "_enter_z3"), ("exit", "_exit_z3")):
+            exec(compile(textwrap.dedent(case["mutant"][key]), f"<mutant {name}>", "exec"), bz3.__dict__)
     bz3._gc_lock, bz3.gc, bz3.log = lock, mgc, mlog
     bz3._active_z3_calls = 0
     bz3._gc_was_enabled = False
@@ -610,6 +688,7 @@ def replay(case):
     all_done = len(sched.done) == len(words)
     final_gc, final_cnt = mgc.enabled, bz3._active_z3_calls
     bz3._gc_lock, bz3.gc, bz3.log, bz3._active_z3_calls, bz3._gc_was_enabled = saved
+    bz3._enter_z3, bz3._exit_z3 = saved_fns
     if mismatch:
         return {"violated": False, "error": True, "detail": "replay diverged from the model: " + mismatch}
     which = case.get("which", [])
@@ -623,8 +702,17 @@ def replay(case):
     full = all(sum(1 for it in schedule if it["thread"] == i and it["kind"] == "zcall") == len(w) for i, w in enumerate(words))
     if full and all_done and (final_gc != case["gc0"] or final_cnt != 0):
         viol.append(f"after all calls returned: gc enabled={final_gc} (initially {case['gc0']}), counter={final_cnt}")
-    return {"violated": bool(viol), "detail": "; ".join(viol) or f"schedule replayed without violation (model said: {which})",
-            "schedule_len": len(schedule)}
+    out = {"violated": bool(viol), "detail": "; ".join(viol) or f"schedule replayed without violation (model said: {which})",
+           "schedule_len": len(schedule)}
+    if case.get("mode") == "conformance":
+        # the real functions followed the model's schedule line for line (no mismatch above); where the model ran every
+        # thread to completion the real final state must be the model's
+        exp = case.get("expect_final")
+        if exp and full and all_done and (exp.get("gc") != final_gc or exp.get("counter") != final_cnt):
+            return {"violated": False, "error": True, "schedule_len": len(schedule),
+                    "detail": f"model final state {exp} but the real functions ended with gc={final_gc} counter={final_cnt}"}
+        out["conforms"] = True
+    return out
 
 
 # ---------------------------------------------------------------------------------------------------------
@@ -646,6 +734,26 @@ def check(prop, tier, cap, only=None, procs=None, list_only=False, t0=None):
         return 0
     results = common.run_pool("harness.p_c19", obs, tier, cap, procs=procs)
     words, combos = _programs(tier)
+    # translator validation against the implementation: every schedule attached by the obligations (model witnesses
+    # of the obligations that hold, the reachability witness, the counterexamples of the two mutants) is replayed on
+    # the real (resp. mutated real) functions in a fresh interpreter with real threads
+    vcases = []
+    for r in results:
+        for j, case in enumerate(r.pop("validate", None) or []):
+            vcases.append((r, case, common.write_replay(prop, f"validate_{r['id']}_{j}", case)))
+    rep = common.replay_native([p for _, _, p in vcases])
+    nconf = nmut = 0
+    for r, case, p in vcases:
+        d = rep.get(p, {"error": True, "detail": "no replay result"})
+        ok = (d.get("violated") and not d.get("error")) if case["mode"] == "mutant-cex" else (d.get("conforms") and not d.get("error"))
+        if ok:
+            r["validated"] = r.get("validated", 0) + 1
+            nconf += case["mode"] == "conformance"
+            nmut += case["mode"] == "mutant-cex"
+        else:
+            r["status"] = "error"
+            r["detail"] = (f"translator validation failed ({case['mode']}): the real functions do not behave as the "
+                           f"encoding says: {d.get('detail', '')[:400]} replay={p}")
     return common.finish(
         prop, tier, "model_checking", results, t0,
         functions=["claripy.backends.backend_z3._enter_z3", "claripy.backends.backend_z3._exit_z3",
@@ -662,5 +770,10 @@ def check(prop, tier, cap, only=None, procs=None, list_only=False, t0=None):
              "prefixes and both initial GC states whether any safety predicate can be violated; non-trivial = at least 8 events",
         trusted_base=["z3 4.13.0", "the Python-AST translator in harness/p_c19.py (validated by the reachability twin, two must-fail "
                       "mutants of the source and by replaying every counterexample on the real functions)"],
-        extra_coverage={"states": max(1, sum(r.get("paths", 0) for r in results)), "transitions": max(1, len(results))},
+        extra_coverage={"states": max(1, sum(r.get("paths", 0) for r in results)), "transitions": max(1, len(results)),
+                        "translator_validation": {
+                            "model_witness_schedules_followed_line_for_line_by_the_real_functions": nconf,
+                            "mutant_counterexamples_reproduced_on_the_mutated_functions": nmut,
+                            "per_holding_obligation": "3 schedules: initial GC on / off with all threads complete, and one "
+                                                      "VERIF_SEED-dependent partial order with arbitrary prefixes"}},
     )
